@@ -1,5 +1,6 @@
 """C15 - fit() performs exactly the documented training protocol.
-Typestate over the interpreted event traces of Hedger.fit (all paths), _configure_optimizer, compute_loss and ensemble_mean."""
+Typestate over the interpreted event traces of Hedger.fit (all paths), _configure_optimizer, compute_loss and ensemble_mean.
+Added after the seeded-defect rounds: R5/R7 also: nothing is stored on the hedger by fit()/_configure_optimizer (an optimiser kept between calls)."""
 import re
 
 from .. import world as W
